@@ -367,7 +367,7 @@ pub fn gen_ops(cfg: &Cfg, double: bool, m: &Model, back_offered: bool, out: &mut
             for via_ref in [false, true] {
                 // consume j elements without writing (j = n+1 runs past the end)
                 for j in [0, n, n + 1] {
-                    let steps = vec![ImStep { back: false, prio: None, payload: None }; j];
+                    let steps = vec![ImStep { back: false, prio: None, payload: None, skip: 0 }; j];
                     out.push(Op::IterMut { steps, end, via_ref });
                 }
                 if via_ref {
@@ -377,14 +377,28 @@ pub fn gen_ops(cfg: &Cfg, double: bool, m: &Model, back_offered: bool, out: &mut
                     // skip j elements, then write one priority
                     for j in 0..n {
                         for &p in &cfg.prios {
-                            let mut steps = vec![ImStep { back, prio: None, payload: None }; j];
-                            steps.push(ImStep { back, prio: Some(p), payload: None });
+                            let mut steps = vec![ImStep { back, prio: None, payload: None, skip: 0 }; j];
+                            steps.push(ImStep { back, prio: Some(p), payload: None, skip: 0 });
                             out.push(Op::IterMut { steps, end, via_ref });
                         }
                         if payload_mode {
-                            let mut steps = vec![ImStep { back, prio: None, payload: None }; j];
-                            steps.push(ImStep { back, prio: None, payload: Some(PAYLOAD_B) });
+                            let mut steps = vec![ImStep { back, prio: None, payload: None, skip: 0 }; j];
+                            steps.push(ImStep { back, prio: None, payload: Some(PAYLOAD_B), skip: 0 });
                             out.push(Op::IterMut { steps, end, via_ref });
+                        }
+                    }
+                }
+                if n >= 2 {
+                    // nth / nth_back: one call of next (writing), then nth(k) writing; and nth(k) first
+                    let lo = *cfg.prios.iter().min().unwrap();
+                    let hi = *cfg.prios.iter().max().unwrap();
+                    let pl = if payload_mode { Some(PAYLOAD_B) } else { None };
+                    for &back in &dirs {
+                        for k in 0..n.min(4) {
+                            for (p1, p2) in [(lo, hi), (hi, lo)] {
+                                out.push(Op::IterMut { steps: vec![ImStep { back, prio: Some(p1), payload: pl, skip: 0 }, ImStep { back, prio: Some(p2), payload: pl, skip: k as u32 + 1 }], end, via_ref });
+                                out.push(Op::IterMut { steps: vec![ImStep { back, prio: Some(p1), payload: pl, skip: k as u32 + 1 }, ImStep { back, prio: Some(p2), payload: pl, skip: 0 }, ImStep { back: false, prio: None, payload: None, skip: 1 }], end, via_ref });
+                            }
                         }
                     }
                 }
@@ -396,7 +410,7 @@ pub fn gen_ops(cfg: &Cfg, double: bool, m: &Model, back_offered: bool, out: &mut
                     for i in 0..n {
                         for j in (i + 1)..n {
                             for (p1, p2) in [(lo, lo), (lo, hi), (hi, lo), (hi, hi)] {
-                                let mut steps = vec![ImStep { back: false, prio: None, payload: None }; j + 1];
+                                let mut steps = vec![ImStep { back: false, prio: None, payload: None, skip: 0 }; j + 1];
                                 steps[i].prio = Some(p1);
                                 steps[j].prio = Some(p2);
                                 out.push(Op::IterMut { steps, end, via_ref });
@@ -407,10 +421,10 @@ pub fn gen_ops(cfg: &Cfg, double: bool, m: &Model, back_offered: bool, out: &mut
                 if dirs.len() > 1 && n >= 2 {
                     // alternate the two ends over the whole queue, writing at the last step
                     for &p in &cfg.prios {
-                        let mut steps: Vec<ImStep> = (0..n).map(|i| ImStep { back: i % 2 == 1, prio: None, payload: None }).collect();
+                        let mut steps: Vec<ImStep> = (0..n).map(|i| ImStep { back: i % 2 == 1, prio: None, payload: None, skip: 0 }).collect();
                         steps.last_mut().unwrap().prio = Some(p);
-                        steps.push(ImStep { back: false, prio: None, payload: None });
-                        steps.push(ImStep { back: true, prio: None, payload: None });
+                        steps.push(ImStep { back: false, prio: None, payload: None, skip: 0 });
+                        steps.push(ImStep { back: true, prio: None, payload: None, skip: 0 });
                         out.push(Op::IterMut { steps, end, via_ref });
                     }
                 }
@@ -441,6 +455,14 @@ pub fn gen_ops(cfg: &Cfg, double: bool, m: &Model, back_offered: bool, out: &mut
         let mut s2: Vec<Pair> = present.iter().map(|&k| (k, 100, if k % 2 == 0 { hi } else { lo })).collect();
         s2.push((cfg.k - 1, 100, hi));
         seqs.push(s2);
+        // long batches naming the same items several times with different priorities (the last decides)
+        for len in [24u32, 48] {
+            seqs.push((0..len).map(|i| (cfg.k - 1 + (i % 8), 100, cfg.prios[(i as usize * 7 + 1) % cfg.prios.len()])).collect());
+            if n > 0 {
+                seqs.push((0..len as usize).map(|i| (present[(i * 3) % n.min(5)], 100, cfg.prios[(i * 5 + 2) % cfg.prios.len()])).collect());
+                seqs.push((0..len as usize).map(|i| if i % 3 == 0 { (present[(i / 3) % n.min(4)], 100, cfg.prios[(i * 5 + 2) % cfg.prios.len()]) } else { (cfg.k - 1 + i as u32, 100, cfg.prios[i % cfg.prios.len()]) }).collect());
+            }
+        }
         for s in seqs {
             let l = s.len();
             out.push(Op::Extend(s.clone(), Hint { lo: l, hi: Some(l) }));
@@ -742,7 +764,7 @@ pub fn gen_ops_large(cfg: &Cfg, double: bool, m: &Model, snap: &Snap, back_offer
         for &end in &endings {
             for via_ref in [false, true] {
                 for j in [0, 1, n, n + 1] {
-                    out.push(Op::IterMut { steps: vec![ImStep { back: false, prio: None, payload: None }; j], end, via_ref });
+                    out.push(Op::IterMut { steps: vec![ImStep { back: false, prio: None, payload: None, skip: 0 }; j], end, via_ref });
                 }
                 if via_ref {
                     continue;
@@ -752,8 +774,8 @@ pub fn gen_ops_large(cfg: &Cfg, double: bool, m: &Model, snap: &Snap, back_offer
                         // the element in map slot j is the j-th from the front, the (n-1-j)-th from the back
                         let skip = if back { n - 1 - j } else { j };
                         for &p in &cfg.prios {
-                            let mut steps = vec![ImStep { back, prio: None, payload: None }; skip];
-                            steps.push(ImStep { back, prio: Some(p), payload: None });
+                            let mut steps = vec![ImStep { back, prio: None, payload: None, skip: 0 }; skip];
+                            steps.push(ImStep { back, prio: Some(p), payload: None, skip: 0 });
                             out.push(Op::IterMut { steps, end, via_ref });
                         }
                     }
@@ -762,7 +784,7 @@ pub fn gen_ops_large(cfg: &Cfg, double: bool, m: &Model, snap: &Snap, back_offer
                 for (x, &i) in tslots.iter().enumerate() {
                     for &j in &tslots[x + 1..] {
                         for (p1, p2) in [(lo, lo), (lo, hi), (hi, lo), (hi, hi)] {
-                            let mut steps = vec![ImStep { back: false, prio: None, payload: None }; j + 1];
+                            let mut steps = vec![ImStep { back: false, prio: None, payload: None, skip: 0 }; j + 1];
                             steps[i].prio = Some(p1);
                             steps[j].prio = Some(p2);
                             out.push(Op::IterMut { steps, end, via_ref });
@@ -771,10 +793,10 @@ pub fn gen_ops_large(cfg: &Cfg, double: bool, m: &Model, snap: &Snap, back_offer
                 }
                 if dirs.len() > 1 && n >= 2 {
                     for &p in &[lo, hi] {
-                        let mut steps: Vec<ImStep> = (0..n).map(|i| ImStep { back: i % 2 == 1, prio: None, payload: None }).collect();
+                        let mut steps: Vec<ImStep> = (0..n).map(|i| ImStep { back: i % 2 == 1, prio: None, payload: None, skip: 0 }).collect();
                         steps.last_mut().unwrap().prio = Some(p);
-                        steps.push(ImStep { back: false, prio: None, payload: None });
-                        steps.push(ImStep { back: true, prio: None, payload: None });
+                        steps.push(ImStep { back: false, prio: None, payload: None, skip: 0 });
+                        steps.push(ImStep { back: true, prio: None, payload: None, skip: 0 });
                         out.push(Op::IterMut { steps, end, via_ref });
                     }
                 }
@@ -804,6 +826,17 @@ pub fn gen_ops_large(cfg: &Cfg, double: bool, m: &Model, snap: &Snap, back_offer
             }
         }
         seqs.push(s3);
+        // long batches that name the same items several times with different priorities (the last
+        // one decides): new items only, and stored items only
+        // (30, 48 and 100 pairs: library sorts and merges change strategy with the length)
+        for len in [30u32, 48, 100] {
+            seqs.push((0..len).map(|i| (absent + (i % 10), 100, cfg.prios[(i as usize * 7 + 1) % cfg.prios.len()])).collect());
+            if n > 0 {
+                seqs.push((0..len as usize).map(|i| (present[(i * 3) % n.min(7)], 100, cfg.prios[(i * 5 + 2) % cfg.prios.len()])).collect());
+                // mostly new items, a few stored ones updated several times
+                seqs.push((0..len as usize).map(|i| if i % 3 == 0 { (present[(i / 3) % n.min(4)], 100, cfg.prios[(i * 5 + 2) % cfg.prios.len()]) } else { (absent + i as u32, 100, cfg.prios[i % cfg.prios.len()]) }).collect());
+            }
+        }
         seqs.sort();
         seqs.dedup();
         for s in seqs {
@@ -923,6 +956,12 @@ pub struct Applied<H: HB> {
 }
 
 
+/// Roomy twin: every transition is executed a second time on a copy that first got spare capacity
+/// (`reserve(64)`), and must return the same value and reach the same tables. Every explored state is
+/// a fresh clone with tightly sized vectors, so without this no operation ever runs on a queue whose
+/// tables have room to spare. Switched off only where a layer measures costs or injects faults.
+pub static ROOMY_TWIN: AtomicBool = AtomicBool::new(true);
+
 /// One transition on a clone of `q`, fully checked: return value legality, contents, tables, order.
 pub fn apply<H: HB>(q: &AnyQ<H>, unordered: bool, m: &Model, op: &Op, universe: &[u32]) -> Result<Applied<H>, String> {
     let mut un = unordered;
@@ -966,6 +1005,25 @@ pub fn apply<H: HB>(q: &AnyQ<H>, unordered: bool, m: &Model, op: &Op, universe: 
         Ok(Ok(())) => {}
         Ok(Err(e)) => return Err(format!("after {}: {e}", op_name(op))),
         Err(e) => return Err(format!("observing the queue after {} panicked: {}", op_name(op), panic_text(&e))),
+    }
+    if ROOMY_TWIN.load(AO::Relaxed) && !matches!(op, Op::Convert | Op::CloneSwap | Op::Reserve(_) | Op::ReserveExact(_) | Op::TryReserve(_) | Op::TryReserveExact(_) | Op::ShrinkToFit) {
+        let mut un2 = unordered;
+        let mut m2 = m.clone();
+        let res = catch_unwind(AssertUnwindSafe(|| {
+            let mut t = q.clone();
+            with_q!(&mut t, x => x.q_reserve(64));
+            let r = with_q!(&mut t, x => step(x, op, &mut m2, &mut un2));
+            r.map(|r| (r, t.snap()))
+        }));
+        match res {
+            Ok(Ok((r2, s2))) => {
+                if r2 != ret || s2 != snap {
+                    return Err(format!("{} behaves differently on a queue with spare capacity (reserve(64) first): returns {r2:?} and leaves {s2:?}; on the tightly sized queue it returns {ret:?} and leaves {snap:?}", op_name(op)));
+                }
+            }
+            Ok(Err(e)) => return Err(format!("on a queue with spare capacity (reserve(64) first): {e}")),
+            Err(e) => return Err(format!("{} on a queue with spare capacity (reserve(64) first) panicked: {}", op_name(op), panic_text(&e))),
+        }
     }
     Ok(Applied { q: c, unordered: un, ret, snap, model: mm, cmps })
 }
